@@ -81,6 +81,13 @@ def _polys(rng, tier):
     # degenerate polygons: an outer loop without vertices (0, 1, 2 holes), and holes without vertices
     hole = [(0.21, 0.5), (0.2, 0.51), (0.19, 0.5)]
     out += [[[]], [[], hole], [[], hole, []], [[(0.3, 0.4), (0.3, 0.6), (0.1, 0.5)], [], hole]]
+    # error paths reached after the scratch arrays exist: a hole with a non-finite vertex (after a good hole / alone),
+    # a hole ring far larger than the shell (outline tracing overflows the size estimate), an infinite shell vertex
+    shell = [(0.21, 0.49), (0.21, 0.51), (0.19, 0.51), (0.19, 0.49)]
+    small = [(0.201, 0.499), (0.201, 0.501), (0.199, 0.5)]
+    nan = float("nan")
+    out += [[shell, [(0.2005, 0.4995), (0.2, nan), (0.1995, 0.5)]], [shell, small, [(0.2005, 0.4995), (nan, 0.5), (0.1995, 0.5)]],
+            [shell, [(0.05, 0.2), (0.05, 0.8), (0.35, 0.8), (0.35, 0.2)]], [[(0.21, 0.49), (float("inf"), 0.51), (0.19, 0.5)]]]
     return out
 
 
